@@ -20,6 +20,8 @@ for n in $names; do
       internal/attr/*) ids="$ids C05 C06";;
       bind.go) ids="$ids C12 C04";;
       form/*) ids="$ids C19 C20";;
+      mux/*) ids="$ids C14 C07 C08";;
+      starttls.go|sasl.go) ids="$ids C02 C03";;
       *) ids="$ids C09";;
     esac
   done
